@@ -355,11 +355,45 @@ def _corr_update_sums(ctx, rec2, nsyn):
     for tag, calls in (("real", rec2.calls), ("synthetic", sums.synthetic_calls(ctx.rng, nsyn))):
         r = sums.compare(ctx, calls, tag)
         nun = sum(r["unported"].values())
+        out.setdefault("_bad_keys", []).extend(r["bad_keys"][:200])
         out[tag] = dict(compared=r["compared"], mismatches=r["mismatches"], unported=r["unported"], result_kinds=r["kinds"],
                         ported_fraction=round(r["compared"] / max(1, r["compared"] + nun), 6),
                         max_length_growth_of_a_candidate=r["max_length_growth"])
     out["real"]["calls_total"] = rec2.total
     return out
+
+
+def _escalate_sums(ctx, acc, bad_keys, tlimit):
+    """failing-input search after the update_sums model and the code disagreed on calls with integer literals (which only arise
+    after rewrites): original trees over the basis whose rewriting can reach those calls (c11_sums.deliteralise) go through the
+    REAL driver and are judged like every other tree (their pairs are appended to acc.pairs)"""
+    import numpy as np
+    from esr.generation import generator as g
+    seen, trees = set(), {}
+    for k in bad_keys[:60]:
+        labels, _, _, un, bi = k
+        b = [["x", "a"], [] if un == "_" else un.split(","), [] if bi == "_" else bi.split(",")]
+        try:
+            cands = sums.deliteralise(list(labels), b)
+        except Exception:
+            cands = []
+        for L in cands:
+            key = (tuple(L), bkey(b))
+            if key in seen or len(seen) >= 400:
+                continue
+            seen.add(key)
+            sh = [2 if z in b[2] else 1 if z in b[1] else 0 for z in L]
+            try:
+                t = g.check_tree(np.array(sh, dtype=int))
+                if not t[0]:
+                    continue
+                trees.setdefault(bkey(b), (b, []))[1].append((t[2], L))
+            except Exception:
+                continue
+    n0 = len(acc.pairs)
+    for _, (b, ts) in trees.items():
+        _explore(ctx, acc, "deliteralised", b, max(len(L) for _, L in ts), ts, True, False, min(tlimit, 20))
+    return dict(disagreeing_calls_used=min(len(bad_keys), 60), original_trees_run=len(seen), pairs_added=len(acc.pairs) - n0)
 
 
 def _real_driver_shape(ctx, acc):
@@ -857,6 +891,7 @@ def run(ctx):
         if cov_on:
             cov_stop()
     us_stats = _corr_update_sums(ctx, rec2, 30000 if deep else 2500)
+    us_stats["deliteralised_search"] = _escalate_sums(ctx, acc, us_stats.pop("_bad_keys", []), tlimit)
     nodup_bad = _real_driver_shape(ctx, acc)
     stats, unc = _judge(ctx, acc)
     nut, badut, utkinds, nodrop = _corr_update_tree(ctx, rec)
